@@ -51,6 +51,21 @@ def run_driver(lines):
             pass
 
 
+def plain(x):
+    """implementation results as plain data: a str subclass other than sx.Sym (an implementation may hand back the
+    caller's own str-like objects) becomes its exact characters, so that results pickle without importing anything
+    and compare by characters, not by the subclass's __eq__"""
+    if isinstance(x, str):
+        return x if type(x) in (str, sx.Sym) else "".join(str.__iter__(x))
+    if isinstance(x, list):
+        return [plain(y) for y in x]
+    if isinstance(x, tuple):
+        return tuple(plain(y) for y in x)
+    if isinstance(x, dict):
+        return {plain(k): plain(v) for k, v in x.items()}
+    return x
+
+
 def _worker(job):
     """job = (comp_name, seed, idx_list, params, explicit_cases)"""
     import components  # imports implrun lazily (after fork)
@@ -73,6 +88,7 @@ def _worker(job):
     for i, c in cases:
         try:
             args, impl = comp.run(c)
+            args, impl = plain(args), plain(impl)
         except Exception as e:  # noqa: BLE001  harness trouble is reported, never hidden
             import traceback
             runs.append((i, c, None, "harness-error: " + traceback.format_exc()[-800:], 0))
